@@ -361,8 +361,32 @@ func TestVerifC45(t *testing.T) {
 				lists[x] = append(lists[x], nm)
 			}
 		}
+		// one document in five writes some configured names with surrounding white space (" E1EDP01", "E1EDK01\t"):
+		// every configured occurrence of such a name is padded. The statement does not say whether a padded
+		// entry names the trimmed segment (the code trims), so either reading is accepted for list membership;
+		// what is judged is that a segment the code DID route has its fields.
+		padded := map[string]bool{}
+		if rng.Intn(5) == 0 {
+			pnames := make([]string, 0, len(routeOf))
+			for nm := range routeOf {
+				pnames = append(pnames, nm)
+			}
+			sort.Strings(pnames)
+			for _, nm := range pnames {
+				if rng.Intn(2) == 0 {
+					padded[nm] = true
+				}
+			}
+		}
+		c45Pads := [][2]string{{" ", ""}, {"", " "}, {" ", " "}, {"\t", ""}, {"", "\n"}, {"  ", "\t "}}
 		for x := range lists {
 			sort.Strings(lists[x])
+			for i, nm := range lists[x] {
+				if padded[nm] {
+					pd := c45Pads[rng.Intn(len(c45Pads))]
+					lists[x][i] = pd[0] + nm + pd[1]
+				}
+			}
 			if rng.Intn(5) == 0 {
 				lists[x] = append(lists[x], "NOT_IN_DOC")
 			}
@@ -454,18 +478,26 @@ func TestVerifC45(t *testing.T) {
 		segOK := ok
 		// (3) routed lists
 		routedSegs, withFields := 0, 0
+		routedByCode := map[string]bool{}
+		if len(padded) > 0 {
+			r.Count("docs_with_padded_route_names", 1)
+		}
 		if ok {
 			gotLists := [][]Segment{res.Items, res.Partners, res.Statuses, res.Dates}
 			firstOnly := true // does the observation equal "each name only in the first route that lists it"?
 			anyBad := -1
 			for x := 0; x < 4; x++ {
 				want := map[string]int{}
+				wantLit := map[string]int{} // literal reading: a padded entry names no segment
 				wantFirst := map[string]int{}
 				for _, rf := range refs {
 					rts := routeOf[rf.Name]
 					for _, y := range rts {
 						if y == x {
 							want[c45SegKey(rf.Name, rf.Path, rf.Value, rf.Attrs)]++
+							if !padded[rf.Name] {
+								wantLit[c45SegKey(rf.Name, rf.Path, rf.Value, rf.Attrs)]++
+							}
 							routedSegs++
 						}
 					}
@@ -475,9 +507,11 @@ func TestVerifC45(t *testing.T) {
 				}
 				got := map[string]int{}
 				for _, s := range gotLists[x] {
-					got[c45SegKey(s.Name, s.Path, s.Value, s.Attributes)]++
+					k := c45SegKey(s.Name, s.Path, s.Value, s.Attributes)
+					got[k]++
+					routedByCode[k] = true
 				}
-				if !c45SameCounts(got, want) && anyBad < 0 {
+				if !c45SameCounts(got, want) && !(len(padded) > 0 && c45SameCounts(got, wantLit)) && anyBad < 0 {
 					anyBad = x
 					replay["route"] = c45RouteNames[x]
 					replay["want_in_route"] = c45Keys(want)
@@ -506,6 +540,13 @@ func TestVerifC45(t *testing.T) {
 			for i, rf := range refs {
 				if len(routeOf[rf.Name]) == 0 || res.Segments[i].Name != rf.Name {
 					continue
+				}
+				if padded[rf.Name] {
+					sg := res.Segments[i]
+					if !routedByCode[c45SegKey(sg.Name, sg.Path, sg.Value, sg.Attributes)] {
+						continue // literal reading of the padded entry: not routed, nothing to judge
+					}
+					r.Count("routed_segments_with_padded_route_name_fields_judged", 1)
 				}
 				f := res.Segments[i].Fields
 				if len(rf.Must) > 0 {
